@@ -265,13 +265,29 @@ pub fn mm256_and_ps(a: __m256, b: __m256) -> __m256 {
 }
 
 // ---------------------------------------------------------------- SSE MULPS / DIVPS: one IEEE-754 binary32 operation per lane
+// The invalid operations (0 * inf, 0 / 0, inf / inf; exceptions masked) deliver a quiet NaN.  They are written out because
+// Kani attaches a "NaN on multiplication/division" check to every Rust `*` and `/` that can create a NaN, and the kernels
+// rely on that NaN (u16 divide: 0 * 65535 / 0 -> NaN -> CVTPS2DQ -> 0x8000_0000 -> low word 0).  NaN payloads are not modelled.
+fn fmul(a: f32, b: f32) -> f32 {
+    if (a.is_infinite() && b == 0.0) || (a == 0.0 && b.is_infinite()) { f32::NAN } else { a * b }
+}
+fn fdiv(a: f32, b: f32) -> f32 {
+    if a.is_nan() || b.is_nan() || (a == 0.0 && b == 0.0) || (a.is_infinite() && b.is_infinite()) {
+        f32::NAN
+    } else if b.is_infinite() {
+        // finite / inf = zero with the xor of the signs (written out: CBMC's NaN check flags every division by an infinity)
+        if a.is_sign_negative() != b.is_sign_negative() { -0.0 } else { 0.0 }
+    } else {
+        a / b
+    }
+}
 pub fn mm_mul_ps(a: __m128, b: __m128) -> __m128 {
     let (a, b) = (f32x4(a), f32x4(b));
-    from_f32x4([a[0] * b[0], a[1] * b[1], a[2] * b[2], a[3] * b[3]])
+    from_f32x4([fmul(a[0], b[0]), fmul(a[1], b[1]), fmul(a[2], b[2]), fmul(a[3], b[3])])
 }
 pub fn mm_div_ps(a: __m128, b: __m128) -> __m128 {
     let (a, b) = (f32x4(a), f32x4(b));
-    from_f32x4([a[0] / b[0], a[1] / b[1], a[2] / b[2], a[3] / b[3]])
+    from_f32x4([fdiv(a[0], b[0]), fdiv(a[1], b[1]), fdiv(a[2], b[2]), fdiv(a[3], b[3])])
 }
 pub fn mm256_mul_ps(a: __m256, b: __m256) -> __m256 {
     let (a, b) = (halves_ps(a), halves_ps(b));
@@ -280,4 +296,69 @@ pub fn mm256_mul_ps(a: __m256, b: __m256) -> __m256 {
 pub fn mm256_div_ps(a: __m256, b: __m256) -> __m256 {
     let (a, b) = (halves_ps(a), halves_ps(b));
     join_ps(mm_div_ps(a[0], b[0]), mm_div_ps(a[1], b[1]))
+}
+
+// ---------------------------------------------------------------- lane-wise MULPS / DIVPS with the lane operation left UNINTERPRETED
+// Only for the f32 kernels (their arithmetic is nothing but one MULPS or DIVPS per colour lane) and only under Kani.
+// SAT cannot prove two symbolic binary32 dividers equivalent in reasonable time (one pair: no answer in 13 min), so the
+// f32 harnesses prove the stronger, solver-friendly statement "for EVERY lane function F: if MULPS/DIVPS applies F lane-wise,
+// the kernel output colour is F(colour, alpha)" - F is an uninterpreted function: a fresh nondeterministic value per distinct
+// operand pair, the same value for a repeated pair (hand-written Ackermann table).  Instantiating F with the IEEE operation of
+// mm_mul_ps / mm_div_ps above (which is what the differential self-test validates) gives the concrete statement.
+#[cfg(kani)]
+pub mod uf {
+    use super::*;
+    const CAP: usize = 64;
+    pub struct Table { pub n: usize, pub arg: [(u32, u32); CAP], pub res: [u32; CAP] }
+    pub static mut MUL: Table = Table { n: 0, arg: [(0, 0); CAP], res: [0; CAP] };
+    pub static mut DIV: Table = Table { n: 0, arg: [(0, 0); CAP], res: [0; CAP] };
+    /// F(a, b) on bit patterns: the value recorded for an earlier application to the same (a, b), else a fresh arbitrary value;
+    /// every application is recorded (so the number of entries is the number of applications - no data-dependent loop bound)
+    pub fn apply(t: &mut Table, a: f32, b: f32) -> f32 {
+        let key = (a.to_bits(), b.to_bits());
+        let mut r: u32 = kani::any();
+        let mut k = t.n;
+        while k > 0 {
+            k -= 1;
+            if t.arg[k] == key { r = t.res[k]; }
+        }
+        assert!(t.n < CAP);
+        t.arg[t.n] = key;
+        t.res[t.n] = r;
+        t.n += 1;
+        f32::from_bits(r)
+    }
+    pub fn mul(a: f32, b: f32) -> f32 { unsafe { apply(&mut *core::ptr::addr_of_mut!(MUL), a, b) } }
+    pub fn div(a: f32, b: f32) -> f32 { unsafe { apply(&mut *core::ptr::addr_of_mut!(DIV), a, b) } }
+    pub fn uf_mm_mul_ps(a: __m128, b: __m128) -> __m128 {
+        let (a, b) = (f32x4(a), f32x4(b));
+        from_f32x4([mul(a[0], b[0]), mul(a[1], b[1]), mul(a[2], b[2]), mul(a[3], b[3])])
+    }
+    pub fn uf_mm_div_ps(a: __m128, b: __m128) -> __m128 {
+        let (a, b) = (f32x4(a), f32x4(b));
+        from_f32x4([div(a[0], b[0]), div(a[1], b[1]), div(a[2], b[2]), div(a[3], b[3])])
+    }
+    pub fn uf_mm256_mul_ps(a: __m256, b: __m256) -> __m256 {
+        let (a, b) = (halves_ps(a), halves_ps(b));
+        join_ps(uf_mm_mul_ps(a[0], b[0]), uf_mm_mul_ps(a[1], b[1]))
+    }
+    pub fn uf_mm256_div_ps(a: __m256, b: __m256) -> __m256 {
+        let (a, b) = (halves_ps(a), halves_ps(b));
+        join_ps(uf_mm_div_ps(a[0], b[0]), uf_mm_div_ps(a[1], b[1]))
+    }
+    // ------------------------------------------------------------ pixel level: the stand-in pixel function of the row-driver harnesses (A8)
+    // The row drivers are generic in what happens to one pixel: they only cut the row into vectors, call the per-vector function and
+    // hand the rest to the remainder code; pixel values are opaque to them.  A8 replaces the per-vector function and the portable row
+    // function by "G on every pixel" and proves that the driver applies G to every pixel of the row exactly once.  G ranges over the
+    // family G_K(p) = p xor K with an ARBITRARY (symbolic) K on the pixel's bits: cheap for SAT, and every routing error (a pixel
+    // skipped, processed twice, taken from the wrong place, a zero-padding result leaking into the row) changes the result for some K.
+    // (A fully uninterpreted G via an Ackermann table as above was measured: 1 M variables / 8-11 GB per harness for the AVX2 drivers.)
+    pub static mut GK: [u32; 4] = [0; 4];
+    pub fn gk_set(k: [u32; 4]) { unsafe { *core::ptr::addr_of_mut!(GK) = k; } }
+    pub fn gk(key: [u32; 4]) -> [u32; 4] {
+        let k = unsafe { *core::ptr::addr_of!(GK) };
+        [key[0] ^ k[0], key[1] ^ k[1], key[2] ^ k[2], key[3] ^ k[3]]
+    }
+    /// word-wise equality (`==` on arrays is a call to memcmp, whose byte loop is very slow under CBMC)
+    pub fn keq(a: [u32; 4], b: [u32; 4]) -> bool { (a[0] == b[0]) & (a[1] == b[1]) & (a[2] == b[2]) & (a[3] == b[3]) }
 }
